@@ -1,0 +1,5 @@
+//go:build !verif
+
+package cwriter
+
+func verifTermSize(int) (int, int, error, bool) { return 0, 0, nil, false }
